@@ -7,7 +7,7 @@ Rec == ndJsonDeserialize(IOEnv.TRACE)
 
 VARIABLES l, viol
 
-Idle == wchk' = WGood /\ UNCHANGED <<I, since, cur, polls, stopSeen, stopSite, afterPolls, afterMain, ended>>
+Idle == wchk' = WGood /\ UNCHANGED <<I, since, polled, cur, polls, stopSeen, stopSite, afterPolls, afterMain, ended>>
 
 Step(e) ==
     CASE e.ev = "wbegin" -> Begin(e.I)
@@ -17,7 +17,7 @@ Step(e) ==
       [] OTHER           -> Idle
 
 TraceInit ==
-    /\ I = 1 /\ since = [s \in Sites |-> 0] /\ cur = "none" /\ polls = 0 /\ stopSeen = FALSE
+    /\ I = 1 /\ since = [s \in Sites |-> 0] /\ polled = [s \in Sites |-> FALSE] /\ cur = "none" /\ polls = 0 /\ stopSeen = FALSE
     /\ stopSite = "none" /\ afterPolls = 0 /\ afterMain = 0 /\ ended = FALSE /\ wchk = WGood
     /\ l = 1 /\ viol = << >> /\ TLCSet(1, << >>)
 
